@@ -430,3 +430,15 @@ def die_target(how, code, hold):
         time.sleep(10)
     elif how == "raise":
         raise RuntimeError("target raises")
+
+
+def tracker_child(out_path, res_path):
+    """Bare child: report the tracker it talks to, register a file, leave."""
+    import json
+
+    from loky.backend import resource_tracker as rt
+
+    open(res_path, "w").close()
+    rt.register(res_path, "file")
+    with open(out_path, "w") as f:
+        json.dump({"pid": os.getpid(), "tracker_pid": rt._resource_tracker._pid, "tracker_fd": rt._resource_tracker._fd}, f)
